@@ -46,7 +46,9 @@ CHECKS.update({
                  "every encode outcome (ok / error / panic) is an event judged by OtapObs.tla.", "7 C08"),
     "C12": _otap("exploration", "Every payload of every emitted batch is walked with arrow-go's MessageReader and each sub-stream re-decoded from scratch by an independent ipc.Reader; OtapObs.tla (Framing clauses) checks batch ids, main-first, one payload per type, non-empty related payloads, "
                  "schema-id stability / no reuse after retirement, IPC continuation shape and independent decodability, on interleaved signals, schema changes, dictionary resets, zstd on/off.", "7 C12"),
-    "C13": _otap("exploration", "Unbounded-cardinality columns are fed for many batches under every dictionary limit option and reset threshold (overflow, reset and slow-crossing regimes); the sizes of the dictionaries an independent Arrow reader holds after each payload "
+    "C13": _otap("model_checking", "Dictionary.tla (index level, memo size, cumulative totals, resetPending, shared-builder rebuild, RevertCounters; scaled capacities) is model checked exhaustively for DictBound / NoPanic / RetryBound / Widening; "
+                 "DictObs.tla validates every dictionary column of every recorded stream against it (observer events with the cardinalities and totals the code itself reports, schema-update groups, and the dictionary an independent reader holds), with the true capacities. "
+                 "Unbounded-cardinality columns are fed for many batches under every dictionary limit option and reset threshold (overflow, reset and slow-crossing regimes); the sizes of the dictionaries an independent Arrow reader holds after each payload "
                  "are compared by OtapObs.tla with the configured limit and with what the index type can address.", "7 C13"),
     "C14": _otap("model_checking", "Allocator.tla (in-use counter vs. limit, two allocators with Limit1 <= Limit2 on the same requests) is model checked exhaustively for WithinLimit, Accounting, Monotone; TLC-simulated operation sequences are replayed into the real LimitedAllocator and judged step by step by AllocObs.tla. "
                  "The same recorded stream is fed to consumers with a ladder of limits from 16 B to 70 MiB (a consumer is retired at its first refusal); OtapObs.tla checks no panic, every refusal recognisable as the memory-limit error, reported in-use <= limit (recording MeterProvider), "
